@@ -113,6 +113,14 @@ def failing_destructors():
                        "function idOf(D d) -> int { return d.id; }\n"
                        "function f() -> int { if (true) { D d = new D(2); return 5; } return 7; }\n"
                        "function main() -> void { %s }\n" % (fault, life))
+    # a destructor that stores 'this': the reference outlives the object
+    out.append("class A { public static A keep = null; public string n; public constructor(string n) -> A { this.n = n; }\n"
+               "  public destructor() -> void { echo(\"~A \" + this.n); keep = this; } }\n"
+               "function main() -> void { A a = new A(\"zombie\"); a = null; A b = new A(\"other\"); A c = new A(\"other2\"); echo(A.keep.n); A.keep = null; }\n")
+    out.append("class H { public A held = null; public constructor() -> H { } }\n"
+               "class A { public static H sink = new H(); public int v = 5; public constructor() -> A { }\n"
+               "  public destructor() -> void { sink.held = this; } }\n"
+               "function main() -> void { A a = new A(); a = null; A b = new A(); echo(A.sink.held.v); }\n")
     # a user function named like a built-in gate must be refused (or must simply work)
     for g, ps in (("h", ""), ("x", ""), ("rx", "int a"), ("cx", "int a")):
         out.append("function %s(%s) -> void { echo(\"mine\"); }\nfunction main() -> void { %s(%s); }\n" % (g, ps, g, "1" if ps else ""))
